@@ -6,8 +6,7 @@ package registry
 
 //@ extern func errors.As
 //@   modifies boxed(target)
-//@ extern func (*server/internal/client/ollama.Error).Temporary
-//@   modifies nothing
+// ((*ollama.Error).Temporary: contract with verified body in server/internal/client/ollama/verif_contracts.go)
 //@ extern func (error).Error
 //@   modifies nothing
 //@ extern func cmp.Or
@@ -22,8 +21,10 @@ package registry
 // goroutine (go/ssa's synthetic yield function; arg1 is the loop's err; the free variable err is
 // the goroutine's named result). The loop goes round again only after a Pull that failed; it
 // ends with the goroutine's result set to what the last Pull returned (or to the backoff error).
-//@ extern func (params).model
+// (params).model: the name that is pulled is one of the two name fields of the request (was a trusted extern)
+//@ func (params).model
 //@   modifies nothing
+//@   ensures result == p.Model || result == p.DeprecatedName
 //@ func (*Local).handlePull$4$2
 //@   requires jump$2 == 0          -- range-over-func protocol: yield is called only while the loop is ready
 //@   ghost-at entry : ghost_pulled := 0
@@ -55,4 +56,4 @@ package registry
 // handlePull$4$1: the deferred hand-over of the goroutine's result: what is sent on `done` is the
 // named result err that the loop body (handlePull$4$2) assigned.
 //@ func (*Local).handlePull$4$1
-//@   assert-at send t0 #1 : sent == err       -- (the channel is a captured local: the engine names the site after the SSA register that holds `*done`, t0)
+//@   assert-at send done #1 : sent == err
